@@ -13,6 +13,7 @@ import props.c07 as c07
 from indexing import normalise, region_dims
 
 ID = "C04"
+THOROUGH_ROUNDS = 2      # rounds of generate() in the thorough tier (new random draws each round)
 COQ_MODULE = "Corr.C04"
 COQ_HEADER = "From Flodym Require Import Corr.C01 Corr.C07 Corr.Indexing."
 COQ_CHECK = "C04.check"
